@@ -3,6 +3,7 @@
 mod util;
 mod tagcases;
 mod cmdcases;
+mod conncases;
 
 use std::io::{BufRead, Write};
 
@@ -32,6 +33,7 @@ fn dispatch(toks: &[&str]) -> String {
     match toks[0] {
         "tag_list" | "tag_parse" | "tag_cmp" | "sub" | "sub_list" | "tag_rt" => tagcases::run(toks),
         "cmd_build" | "cmd_args" | "cmd_list" | "escape" => cmdcases::run(toks),
+        "recv" | "conn" => conncases::run(toks),
         other => format!("unknown-kind {}", other),
     }
 }
